@@ -200,7 +200,7 @@ func RepoDir() string {
 // S3lit — the literal words the folder / whitelist compare values against and the case-foldable
 // lexical prefix forms, as single-token fragments (plus a few operators to combine them).
 var S3lit = []string{
-	"1 ", "foo ", "'s' ", "or ", "; ", "( ", ") ", ", ", "= ", "select ", "union ", "@", "` ",
+	"1 ", "foo ", "'s' ", "or ", "; ", "( ", ") ", ", ", "= ", "select ", "union ", "@", "@user ", "` ",
 	"user ", "user_id ", "user_name ", "database ", "password ", "current_user ", "current_date ", "current_time ",
 	"current_timestamp ", "localtime ", "localtimestamp ", "in ", "not ", "like ", "into ", "outfile ", "dumpfile ", "if ", "collate ", "a_b ",
 	"u&'s' ", "n's' ", "e's' ", "x'1f' ", "b'01' ", "0x1f ", "0b01 ", "1e5 ", "1.5d ", "q'(s)' ", "nq'[s]' ", "$a$s$a$ ", "\\N ", "--x/* ",
@@ -213,7 +213,8 @@ var SQLPrefixes = []string{"\xe9' ", "\xff\" ", "1' ", "a\" ", "\\' ", "1'/**/",
 // HTMLPrefixes put the tokenizer into a non-initial state (inside an end tag, after a quoted value,
 // after a self-closing slash, inside an attribute list ...).
 var HTMLPrefixes = []string{"</a ", "</a b=\"x\"", "</a b='x' ", "<a b=\"x\"", "<a b=x ", "<a/", "</a/", "<a b", "</a b", "<!--x-->", "</>", "</a>",
-	"</a x='", "</a x=\"", "<a x=`", "</a b=x", "\xef\xbb\xbf"}
+	"</a x='", "</a x=\"", "<a x=`", "</a b=x", "\xef\xbb\xbf",
+	"</a b=\"x\">", "</a b='x'>", "</a >", "</a x='>", "</a x=\">", "</a x=`>"}
 
 func rep(u string, k int) string { return strings.Repeat(u, k) }
 
